@@ -61,7 +61,7 @@ static REF_GLOB next_global;
 static int run_mode;
 
 #define NODE_LIMIT 200000
-#define HANG_BUDGET 3000000L
+#define HANG_BUDGET 1000000L
 
 static int is_op(const char *op, int nw) { return 0 == strcmp(h_w[0], op) && h_nw == nw; }
 
@@ -83,7 +83,7 @@ static int is_hex16(const char *s) {
 static int args_ok(void) {
   int i;
   const char *op = h_w[0];
-  if (0 == strcmp(op, "reset") || 0 == strcmp(op, "run")) return 1;
+  if (0 == strcmp(op, "reset") || 0 == strcmp(op, "run") || 0 == strcmp(op, "note")) return 1;
   for (i = 1; i < h_nw; i++) {
     int hex = 0 == strcmp(op, "node") || 0 == strcmp(op, "limits") || (0 == strcmp(op, "metric") && i > 1);
     if (hex ? !is_hex16(h_w[i]) : !is_int(h_w[i])) return 0;
@@ -293,6 +293,28 @@ static int ledger_ok(void) {
   free(key);
   free(sgn);
   return ok;
+}
+
+/* the certificate of the run-level driver (Cavity2.certOk), again without refine code: every listed cell is live, every
+   live face has three distinct nodes, the ledger is balanced */
+static int cert_ok(void) {
+  REF_CELL tet = ref_grid_tet(ref_grid), tri = ref_grid_tri(ref_grid);
+  REF_LIST tl = ref_cavity_tet_list(ref_cavity), rl = ref_cavity_tri_list(ref_cavity);
+  REF_INT item, cell, i;
+  for (item = 0; item < ref_list_n(tl); item++) {
+    cell = ref_list_value(tl, item);
+    if (cell < 0 || cell >= ref_cell_max(tet) || REF_EMPTY == tet->c2n[ref_cell_size_per(tet) * cell]) return 0;
+  }
+  for (item = 0; item < ref_list_n(rl); item++) {
+    cell = ref_list_value(rl, item);
+    if (cell < 0 || cell >= ref_cell_max(tri) || REF_EMPTY == tri->c2n[ref_cell_size_per(tri) * cell]) return 0;
+  }
+  for (i = 0; i < ref_cavity_maxface(ref_cavity); i++) {
+    REF_INT *f = &(ref_cavity->f2n[3 * i]);
+    if (REF_EMPTY == f[0]) continue;
+    if (f[0] == f[1] || f[1] == f[2] || f[2] == f[0]) return 0;
+  }
+  return ledger_ok();
 }
 
 /* a call of one of the three functions with a `while (keep_growing)` loop, under the call budget */
@@ -566,6 +588,8 @@ int main(int argc, char **argv) {
     if (is_op("reset", 1) || is_op("reset", 2)) {
       reset(h_nw == 2 && 0 == strcmp(h_w[1], "twod"));
       fputs("ok\n", out);
+    } else if (is_op("note", 2)) { /* a marker for the oracle: no effect */
+      fputs("ok\n", out);
     } else if (is_op("node", 4)) {
       REF_INT node = REF_EMPTY;
       int k;
@@ -749,7 +773,7 @@ int main(int argc, char **argv) {
     } else if (is_op("replace", 1)) {
       st_line(ref_cavity_replace(ref_cavity));
     } else if (is_op("ledger", 1)) {
-      fprintf(out, "ok %d\n", ledger_ok());
+      fprintf(out, "ok %d %d\n", ledger_ok(), cert_ok());
     } else if (is_op("node23", 3)) {
       long long a = h_i(h_w[1]), b = h_i(h_w[2]);
       REF_INT node2 = REF_EMPTY, node3 = REF_EMPTY;
